@@ -13,7 +13,7 @@ META = {
         "timestamps": "full 64-bit valid stamps (exactness); stamps within one forgiveness period of a symbolic base (repair)",
         "domain": "quick KEYS=2 NODES=2; thorough KEYS=3 NODES=3; N=2 (and N=1 for exactness)",
         "exactness": "two ARBITRARY invariant-satisfying states",
-        "repair": "(quick+thorough) two ARBITRARY invariant-satisfying replicas whose stamps all lie within one forgiveness period, one-directional repair, both batch orders; (thorough) two replicas built from one pool of 2 operations, each applying an arbitrary subset in arbitrary order on source 0, one exchange each way",
+        "repair": "(quick+thorough) two ARBITRARY invariant-satisfying replicas whose stamps all lie within one forgiveness period, one-directional repair, both batch orders; the pool-built two-way exchange harness did not finish and is not registered",
     },
     "models": ["vcoll container models (see C04)", "spec_cutoff",
                "repair path: the will_apply-gated, stamp-ordered batch application of on_multi_del/on_multi_set on READ_REPAIR_SOURCE_ID is transcribed in the harness (20 lines); the real handlers are decided under C02"],
@@ -24,11 +24,14 @@ META = {
 MANIFEST = {
     "text": "Bounded model checking (SAT) of the real diff/check_self_then_insert_to on two arbitrary invariant-satisfying replica states "
             "with fully symbolic timestamps: a key is listed iff the peer holds a strictly newer insert/delete (or, if the replica holds "
-            "nothing, one not below the replica's cut-off), once, in the right list, with the peer's stamp; and of one repair exchange "
-            "between two replicas built from a common pool of 2 operations (thorough) / two arbitrary in-window states (one direction) within one forgiveness period: afterwards nothing is left "
-            "to fetch and both expose identical live ids and stamps, for both batch orders.",
+            "nothing, one not below the replica's cut-off), once, in the right list, with the peer's stamp; and of the repair step on two "
+            "arbitrary replica states within one forgiveness period: applying ANY single item of the difference (will_apply-gated, "
+            "read-repair source) removes exactly that item, touches no other key and preserves invariant and window condition (so any "
+            "batch split/order empties the difference); in the thorough tier the whole two-batch application in both orders leaves "
+            "nothing to fetch and the replica at least as new as the peer on every key the peer holds. The two-way exchange on "
+            "pool-built replicas did not finish and is not claimed by a harness of its own.",
     "note": "Trusts Kani/CBMC, the vcoll container models, the invariant, and the 20-line transcription of the gated batch application.",
-    "technique": "Kani/CBMC bounded model checking of the compiled source; symbolic state pairs for exactness, pool-generated replicas for repair; native replay",
+    "technique": "Kani/CBMC bounded model checking of the compiled source; symbolic state pairs for exactness and for the inductive repair step; native replay",
 }
 
 
@@ -56,5 +59,6 @@ def harnesses(tier, seed):
     if tier == "thorough":
         hs.append(h("c05_repair_step_n2", "A applies A.diff(B) for two arbitrary in-window states, both batch orders: nothing left to fetch, A at least as new as B on B's keys",
           covers=2, t=3600, mem=24))
-        hs.append(h("c05_exchange_repairs_p2", "one exchange each way; replicas built from a pool of 2 operations; identical lookups afterwards", t=7200, mem=40))
+        # c05_exchange_repairs_p2 (pool-built replicas, one exchange each way) is kept in encode/harness_c05.rs but NOT
+        # registered: 25 min timeout in the quick-tier formulation, out of memory at 40 GB after 8 min in the thorough one.
     return hs
